@@ -3,13 +3,19 @@
 (* classes (every step logs the abstract mesh before and after) against the     *)
 (* clauses of Refinement.tla.  Both uniform and adaptive steps occur in the     *)
 (* histories of C12 and C13; each is judged by its own clause set.              *)
-EXTENDS Refinement
+EXTENDS RGBOps
 
 Batch  == JsonDeserialize(IOEnv.TRACE_FILE)
 Events == Batch.events
 N      == Len(Events)
 
-Clauses(e) == IF e.a = "Refine" THEN RefineClauses(e) ELSE AdaptClauses(e)
+\* informational (never a verdict): on first-order triangle meshes the transcription RGBOps!AdaptiveImpl reproduces the
+\* code's result exactly (same vertices, same cells in the same order, same sub-domain index lists)
+Drift(e) == IF e.a = "Adapt" /\ e.err = "" /\ e.pre.cls = "MeshTri1" /\ MeshWF(e.pre)
+            THEN LET mdl == AdaptiveImpl(e.pre, e.marked) IN
+                 [Drift_RGBModelEqualsCode |-> mdl.p = e.post.p /\ mdl.t = e.post.t /\ mdl.sub = e.post.sub]
+            ELSE <<>>
+Clauses(e) == (IF e.a = "Refine" THEN RefineClauses(e) ELSE AdaptClauses(e)) @@ Drift(e)
 
 VARIABLES i, bad, cnt
 vars == <<i, bad, cnt>>
